@@ -667,7 +667,9 @@ func e18RestCase(pkg, ns string) Case {
 				r.V("C20", "watch-request-wrong", "%s ns=%q: watch request is %q, expected %q", pkg, ns, reqs[1], wantWatch)
 			}
 			if len(reqs) < 3 {
-				r.V("C20", "requests-missing", "%s ns=%q: no re-watch within 6 s after the server closed the first stream; saw %v", pkg, ns, reqs)
+				// real time (this case cannot run in a bubble): on an overloaded machine the
+				// 1 s retry may simply not have happened yet
+				r.Inc(fmt.Sprintf("%s ns=%q: no re-watch within 6 s wall-clock after the server closed the first stream; saw %v", pkg, ns, reqs))
 			} else if reqs[2] != wantRewatch && reqs[2] != wantWatch {
 				// (resuming at 7 is legitimate too: the session may end before the watcher
 				// has taken the event out of the session's buffer; it is then replayed)
